@@ -284,6 +284,16 @@ impl vstd::std_specs::convert::FromSpecImpl<u32> for RawMode {
     open spec fn obeys_from_spec() -> bool { true }
     open spec fn from_spec(m: u32) -> RawMode { RawMode(m) }
 }
+/// `rmode & mask` on the alias is u32's `&`
+impl std::ops::BitAnd<u32> for RawMode {
+    type Output = RawMode;
+    fn bitand(self, rhs: u32) -> (r: RawMode) { RawMode(self.0 & rhs) }
+}
+impl vstd::std_specs::ops::BitAndSpecImpl<u32> for RawMode {
+    open spec fn obeys_bitand_spec() -> bool { true }
+    open spec fn bitand_req(self, rhs: u32) -> bool { true }
+    open spec fn bitand_spec(self, rhs: u32) -> RawMode { RawMode(self.0 & rhs) }
+}
 pub struct Mode { pub bits: u32 }
 impl Mode {
     /// `Mode::from_raw_mode` = from_bits_truncate: keeps the permission bits only
